@@ -122,6 +122,8 @@ func (e *Engine) verifIntrinsic(fn *ssa.Function, args []Value) (Value, bool) {
 		return boolVal(e.deepEqual(args[0], args[1], deepOpts{useEqualMethod: true})), true
 	case "SharedHeap":
 		return e.sharedHeap(args[0], args[1]), true
+	case "JSONBytes":
+		return &JSONVal{Node: copyVal(args[0]).(*Agg)}, true
 	case "MapKeySetsDiffer":
 		return boolVal(e.mapKeySetsDiffer(args[0], args[1], 0)), true
 	case "SymOrder":
